@@ -30,7 +30,9 @@ func zzH_C09_skipdecoder() {
 		out3, err := sd.Next(I32)
 		zzAssert(err == nil, "SkipDecoder failed on the following value")
 		zzHavocFreed()
-		zzAssert(zzAnd(!zzIsFreed(out), zzAnd(!zzIsFreed(out2), !zzIsFreed(out3))), "a skip-decoder result was recycled before Release")
+		zzAssertLive(out, "a skip-decoder result was recycled before Release")
+		zzAssertLive(out2, "a skip-decoder result was recycled before Release")
+		zzAssertLive(out3, "a skip-decoder result was recycled before Release")
 		zzAssertEqBytes(out, val, "first result changed while reading on")
 		zzAssertEqBytes(out2, second[:1], "second result differs")
 		zzAssertEqBytes(out3, second[1:], "third result differs")
@@ -44,7 +46,7 @@ func zzH_C09_skipdecoder() {
 			return
 		}
 		zzHavocFreed()
-		zzAssert(!zzIsFreed(out), "ReaderSkipDecoder result was recycled while still valid")
+		zzAssertLive(out, "ReaderSkipDecoder result was recycled while still valid")
 		zzAssertEqBytes(out, val, "ReaderSkipDecoder result differs from the value")
 		out2, err := rd.Next(BOOL)
 		zzAssert(err == nil, "ReaderSkipDecoder failed on the following value")
